@@ -48,6 +48,9 @@ CHECKS['C07'] = dict(cat='exploration', tech='bounded-exhaustive enumeration of 
 CHECKS['C01'] = dict(cat='exploration', tech='bounded-exhaustive enumeration of generated well-formed documents (all ordered pairs of value tokens x structures x separators, both dialects) parsed by the real cif_parse; content known by construction from an independent generator',
       text='An independent generator written from the CIF 2.0 and CIF 1.1 grammars produces every document with two value tokens over 41 content atoms (syntactically special strings, 2/3-byte and supplementary characters, embedded newlines, newline-semicolon, trailing backslash, 2040-character value) in every admissible presentation (bare, quoted, triple-quoted, text field, line-folded with and without cuts, prefixed, prefixed+folded), in 8 structures (scalars, loops, list, table with an NFD key, nested composite, save frame, two blocks), with 6 separator styles incl. comments, with and without the version comment. cif_parse must report no error and the dump (blocks, frames, loops, packets, text, quoted status, list order, key-to-value map) must equal the generating AST.',
       note='N = 2 value tokens per document (every neighbouring token pair in every context); characters outside the atom alphabet are covered through class representatives only. The generator is the trusted statement of the grammar.', ref='C01')
+CHECKS['C08'] = dict(cat='exploration', tech='exhaustive differential sweep of probe documents x terminator styles x buffer alignments on the real parser; oracle = LF-only unpadded parse of the same probe',
+      text='26 probe documents (every token kind, CR LF / multi-byte / surrogate constructs, triple quotes, text-field protocols, CIF 1.1 forms, 11 defect probes whose error codes and line numbers are compared too) are rendered with LF, CR LF, CR and mixed terminators and preceded by comment padding so that every byte of the probe falls on a 4096-byte read-buffer seam, at base offsets 0, 130000 (crossing the first compaction of the 131200-unit scan buffer) and 258000, and so that the end of input falls in every part of the final block; thorough: every padding 0..4111. Content and the (error code, line) sequence must equal those of the LF-only unpadded rendering.',
+      note='Single tokens larger than the scan buffer are not swept here (covered for memory safety by C03/C16). Column numbers are not compared.', ref='C08')
 NOT_APPLICABLE = {}
 
 def main():
